@@ -22,7 +22,7 @@ from refmodel.poly import zeros
 NUS = [1e-2, 1e-4, 1.0, 50.0]
 CFLS = [0.1, 0.05, 0.5, 1.0]
 PREFACS = [1.0, 0.5, 0.1]
-VELS = ["zero", "uniform", "spike", "alternating", "one-component"]
+VELS = ["zero", "uniform", "spike", "spike-corner", "alternating", "one-component"]
 GRIDS = {2: [(8, 8), (16, 12), (256, 256)], 3: [(8, 8, 8), (12, 8, 16), (96, 96, 96)]}
 KINDS = ["ns2d", "ns3d", "pt2d", "pt3ds", "pt3dv"]
 
@@ -35,6 +35,11 @@ def _velocity(name, dim, shape, dtype):
     elif name == "spike":
         v[(0, *[n // 2 for n in shape])] = 1e3
         v[(dim - 1, *[n // 3 for n in shape])] = -2e2
+    elif name == "spike-corner":  # the maximum sits on the outermost ring (first / last cell), the rest is slow
+        for k in range(dim):
+            v[k] = 0.01
+        v[(0, *[0 for _ in shape])] = -5e2
+        v[(dim - 1, *[n - 1 for n in shape])] = 3e2
     elif name == "alternating":
         idx = np.indices(shape).sum(0)
         for k in range(dim):
